@@ -241,6 +241,11 @@ class Contour(BaseObject):
 
         This posts *Contour.PointsChanged* and *Contour.Changed* notifications.
         """
+        # free the identifiers of the points
+        identifiers = self.identifiers
+        for point in self._points:
+            if point.identifier is not None:
+                identifiers.discard(point.identifier)
         self._clear()
 
     def _clear(self, postNotification=True):
